@@ -25,6 +25,27 @@ def zz(m):
     return "zz_verif_" + m
 
 
+
+_ENTRY = [0]
+
+
+def an_extraction():
+    """one extraction through one of the public entry points, taken in rotation: C17 speaks of ANY extraction"""
+    k = _ENTRY[0]
+    _ENTRY[0] = k + 1
+    k %= 4
+    if k == 0:
+        stackscope.extract(None, with_contexts=False)
+    elif k == 1:
+        try:
+            stackscope.extract_outermost(None, with_contexts=False)
+        except RuntimeError:
+            pass                      # None has no frames
+    elif k == 2:
+        stackscope.extract_since(None, with_contexts=False)
+    else:
+        stackscope.extract_until(sys._getframe(0), limit=1, with_contexts=False)
+
 class Mismatch(Exception):
     pass
 
@@ -113,7 +134,7 @@ class World:
             try:
                 with warnings.catch_warnings():
                     warnings.simplefilter("ignore")
-                    stackscope.extract(None, with_contexts=False)
+                    an_extraction()
             except BaseException as ex:
                 with self.cv:
                     self.at[t] = "crashed:%r" % (ex,)
@@ -250,7 +271,7 @@ def free_running(data):
                 for _ in range(nex):
                     with warnings.catch_warnings():
                         warnings.simplefilter("ignore")
-                        stackscope.extract(None, with_contexts=False)
+                        an_extraction()
                     events.append({"t": me, "e": "arrive", "p": "idle", "m": "-", "op": "-"})   # back outside the routine
 
             def env():
@@ -351,10 +372,19 @@ def main():
         if bad:
             bad["flags"] = beh.get("flags")
             out["mismatches"].append(bad)
-            world.drain()
+            try:
+                world.drain()
+            except Stuck as ex:
+                # the workers cannot be brought back to a clean state: report what was found and stop replaying
+                out["aborted"] = "after the mismatch in behaviour %d: %s" % (bi, ex)
+                out["n"] += 1
+                break
         out["n"] += 1
     world.stop = True
-    world.reset()
+    try:
+        world.reset()
+    except BaseException:
+        pass
     for s_ in out["strict"]:
         s_.pop("k", None)
     json.dump(out, open(sys.argv[2], "w"))
